@@ -16,7 +16,11 @@ up to the `_check_*` cache flags, and nothing is eligible for dispatch afterward
 * `reconcile_targets` and `_update_meta_ready` change nothing but `_check_after`
   (`_ready`/`_check_ready`): no state, hash, relation, need or queue entry;
 * with every attached step SUCCEEDED (or not needed and PENDING is excluded by hypothesis), no step
-  is eligible, so `pop_next_job` answers "nothing to do" (`quiescent_nothing_eligible`).
+  is eligible (`quiescent_nothing_eligible`); `pop_next_job` refreshes the cached columns, keeps
+  every row's state and attachment, and answers "nothing to do" (`noop_pop_none`);
+* composed (`noop_restart_identity`): the kernel requests of a restart on a quiescent database
+  with an unchanged environment and no changed file differ from the identity only in
+  `_check_after` flags.
 
 Decided by the oracle only (`harness/props/c04.py`, on simulated builds of the real director):
 the whole-build statements `noop_rebuild` (zero commands, identical graph text, identical file
@@ -151,6 +155,60 @@ theorem quiescent_nothing_eligible (s : KState) (cfg : KConfig)
     rcases h n hn hk hdet with h1 | h1
     · exact absurd hst h1
     · exact absurd h1 hneed
+
+/-- **noop: nothing is dispatched.** When no attached step is PENDING (what a successful build
+leaves when every step was needed), `pop_next_job` refreshes the cached columns, selects nothing
+and leaves every row's state untouched, whatever the cached columns were. -/
+theorem noop_pop_none (s : KState) (cfg : KConfig)
+    (hq : ∀ n ∈ s.nodes, n.key.kind = .step → n.detached = false → n.sstate ≠ .pending)
+    (su : KState) (hu : s.updateMeta cfg = .ok su) :
+    s.popNext cfg none = .ok (su, .none) ∧ su.nodes.map Node.dcore = s.nodes.map Node.dcore := by
+  have hdcore := updateMeta_dcore s su cfg hu
+  have hq' : ∀ n ∈ su.nodes, n.key.kind = .step → n.detached = false → n.sstate ≠ .pending := by
+    intro n hn hk hd
+    have hmem : n.dcore ∈ su.nodes.map Node.dcore := List.mem_map_of_mem hn
+    rw [hdcore, List.mem_map] at hmem
+    obtain ⟨m, hm, hmc⟩ := hmem
+    have h1 : m.key = n.key := congrArg Prod.fst hmc
+    have h2 : m.sstate = n.sstate := congrArg (fun x => x.2.1) hmc
+    have h3 : m.detached = n.detached := congrArg (fun x => x.2.2) hmc
+    rw [← h2]
+    exact hq m hm (h1 ▸ hk) (h3 ▸ hd)
+  refine ⟨?_, hdcore⟩
+  unfold KState.popNext
+  simp only [hu, bind, Except.bind]
+  have hnil : su.nodes.filter (su.eligible cfg) = [] := by
+    rw [List.filter_eq_nil_iff]
+    intro n hn he
+    obtain ⟨hk, hst, hdet, _⟩ := C10.eligible_sound su cfg n he
+    exact hq' n hn hk hdet hst
+  simp [hnil, pure, Except.pure]
+
+
+/-- The kernel requests of a restart (`resume_from_db`: `reset_interrupted_steps`,
+`rescan_env_vars`, a file rescan in which no hash changed, then `reconcile_targets`). -/
+def restartRequests (s : KState) (cfg : KConfig) : M KState := do
+  let a ← s.resetInterrupted
+  let b ← a.rescanEnvVars cfg
+  let c ← b.updateFileHashes [] .external
+  c.reconcileTargets cfg
+
+/-- **noop_rebuild, kernel part**: on a quiescent database (no step RUNNING, CHECKING or attached
+FAILED; every recorded environment value current; no file hash changed) the requests of a restart
+change no persistent column: the result differs from the database before only in `_check_after`
+flags. -/
+theorem noop_restart_identity (s s' : KState) (cfg : KConfig)
+    (hr : ∀ n ∈ s.nodes, n.key.kind = .step → n.sstate ≠ .running ∧ n.sstate ≠ .checking)
+    (hf : ∀ n ∈ s.nodes, n.key.kind = .step → n.detached = false → n.sstate ≠ .failed)
+    (henv : ∀ n ∈ s.nodes, n.key.kind = .step → n.detached = false → ∀ e ∈ n.envs, envValue cfg e.1 = e.2.1)
+    (h : restartRequests s cfg = .ok s') : SameButAfter s s' := by
+  unfold restartRequests at h
+  rw [resetInterrupted_quiescent_identity s hr hf] at h
+  simp only [bind, Except.bind] at h
+  rw [rescanEnv_unchanged_identity s cfg henv] at h
+  simp only [updateFileHashes_empty] at h
+  exact reconcileTargets_touches_only_check_after s s' cfg h
+
 
 /-! Non-vacuity -/
 example : hashJobApplies (7 : Nat) 7 Cause.external = false := by decide
